@@ -166,11 +166,11 @@ Definition cx_bridge_hist : list hop := [HAdd (bs "{x:digit}.com"); HReg (bs "di
 
 Example cx_bridge_facts :
   regs_first cx_bridge_hist = false /\
-  hosts_match (hosts_reach cx_bridge_hist) (bs "digit.com") [] = Some (true, [(bs "x", bs "digit")]) /\
-  hosts_match (hosts_reach cx_bridge_hist) (bs "5.com") [] = Some (false, []) /\
+  hosts_match_raw (hosts_reach cx_bridge_hist) (bs "digit.com") [] = Some (true, [(bs "x", bs "digit")]) /\
+  hosts_match_raw (hosts_reach cx_bridge_hist) (bs "5.com") [] = Some (false, []) /\
   let t := fold_left tstep (hist_ops cx_bridge_hist) (new_tree (bs "host") (hist_ic cx_bridge_hist) true) in
-  hosts_match t (bs "digit.com") [] = Some (false, []) /\
-  hosts_match t (bs "5.com") [] = Some (true, [(bs "x", bs "5")]).
+  hosts_match_raw t (bs "digit.com") [] = Some (false, []) /\
+  hosts_match_raw t (bs "5.com") [] = Some (true, [(bs "x", bs "5")]).
 Proof. vm_compute. repeat split; reflexivity. Qed.
 
 Theorem hosts_bridge_refuted :
@@ -231,14 +231,14 @@ Qed.
 
 (* "" and "*" are looked up at the root, which answers OPTIONS only: rejected, parameters untouched *)
 Lemma hosts_special_rejected_t : forall t host ps, hroot t -> special (normalise_host host) ->
-  hosts_match t host ps = Some (false, ps).
+  hosts_match_raw t host ps = Some (false, ps).
 Proof.
-  intros t host ps [Hh Ht] Hsp. unfold hosts_match. rewrite tree_handler_eq, Ht, get_not_trace.
+  intros t host ps [Hh Ht] Hsp. unfold hosts_match_raw. rewrite tree_handler_eq, Ht, get_not_trace.
   apply special_beqb in Hsp. rewrite Hsp. cbn [handler_of]. unfold nsize. rewrite Hh. reflexivity.
 Qed.
 
 Theorem hosts_special_rejected : forall hist host ps, special (normalise_host host) ->
-  hosts_match (hosts_reach hist) host ps = Some (false, ps).
+  hosts_match_raw (hosts_reach hist) host ps = Some (false, ps).
 Proof. intros hist host ps H. apply hosts_special_rejected_t; [apply hroot_reach | exact H]. Qed.
 
 (* on any other host: either a node below the root answers GET, or nothing is found *)
@@ -268,9 +268,9 @@ Proof.
 Qed.
 
 Lemma hosts_match_answer : forall t host ps,
-  hosts_match t host [] = Some (true, ps) <-> exists dom, hosts_answer t host = Some (dom, ps).
+  hosts_match_raw t host [] = Some (true, ps) <-> exists dom, hosts_answer t host = Some (dom, ps).
 Proof.
-  intros t host ps. unfold hosts_match, hosts_answer.
+  intros t host ps. unfold hosts_match_raw, hosts_answer.
   destruct (tree_handler t GET (normalise_host host) []) as [ok on h ps'|s] eqn:E.
   - destruct ok.
     + assert (Hn : exists n, on = Some n).
@@ -292,14 +292,14 @@ Proof.
 Qed.
 
 Lemma hosts_match_reject : forall t host, tree_safe t ->
-  (exists ps, hosts_match t host [] = Some (false, ps)) <-> hosts_answer t host = None.
+  (exists ps, hosts_match_raw t host [] = Some (false, ps)) <-> hosts_answer t host = None.
 Proof.
   intros t host Hs. pose proof (hosts_match_total_safe t host [] Hs) as Htot.
-  destruct (hosts_match t host []) as [[[|] ps]|] eqn:E; [| |now elim Htot].
+  destruct (hosts_match_raw t host []) as [[[|] ps]|] eqn:E; [| |now elim Htot].
   - destruct (proj1 (hosts_match_answer t host ps) E) as [dom ->]. split; [intros [q Hq]; discriminate Hq | discriminate].
   - split; [|intros _; now exists ps]. intros _.
     destruct (hosts_answer t host) as [[dom q]|] eqn:A; [|reflexivity].
-    assert (X : hosts_match t host [] = Some (true, q)) by (apply hosts_match_answer; now exists dom).
+    assert (X : hosts_match_raw t host [] = Some (true, q)) by (apply hosts_match_answer; now exists dom).
     rewrite E in X. discriminate X.
 Qed.
 
@@ -528,13 +528,13 @@ Qed.
 Lemma hosts_match_cases : forall hist host,
   let t := hosts_reach hist in
   let host' := normalise_host host in
-  (special host' /\ hosts_match t host [] = Some (false, []) /\ hosts_answer t host = None) \/
+  (special host' /\ hosts_match_raw t host [] = Some (false, []) /\ hosts_answer t host = None) \/
   (~ special host' /\
    ((exists n h ps, tree_handler t GET host' [] = HFound true (Some n) h ps /\
                     desc (troot t) n /\ nhandlers n <> [] /\
-                    hosts_match t host [] = Some (true, ps) /\ hosts_answer t host = Some (npat n, ps)) \/
+                    hosts_match_raw t host [] = Some (true, ps) /\ hosts_answer t host = Some (npat n, ps)) \/
     (exists h, tree_handler t GET host' [] = HFound false None h [] /\
-               hosts_match t host [] = Some (false, []) /\ hosts_answer t host = None))).
+               hosts_match_raw t host [] = Some (false, []) /\ hosts_answer t host = None))).
 Proof.
   intros hist host t host'. destruct (hinv_reach hist) as [_ [Hs [Hg _]]]. fold t in Hs, Hg.
   pose proof (hroot_reach hist) as Hr. fold t in Hr.
@@ -545,9 +545,9 @@ Proof.
     destruct (hosts_handler_cases t host' [] Hg Hs Hr N1 N2) as [[n [h [ps [E MC]]]] | [h [ps E]]].
     + left. exists n, h, ps. split; [exact E|].
       destruct (match_found_strict _ _ _ _ _ _ MC N1) as [D Hne]. split; [exact D|]. split; [exact Hne|].
-      unfold hosts_match, hosts_answer. fold host'. rewrite E. split; reflexivity.
-    + right. assert (M : hosts_match t host [] = Some (false, ps)).
-      { unfold hosts_match. fold host'. now rewrite E. }
+      unfold hosts_match_raw, hosts_answer. fold host'. rewrite E. split; reflexivity.
+    + right. assert (M : hosts_match_raw t host [] = Some (false, ps)).
+      { unfold hosts_match_raw. fold host'. now rewrite E. }
       pose proof (hosts_clean_empty_ctx hist host ps M) as ->.
       exists h. split; [exact E|]. split; [exact M|]. unfold hosts_answer. fold host'. now rewrite E.
 Qed.
@@ -562,7 +562,7 @@ Proof. discriminate. Qed.
 Theorem hosts_refines_resolver : forall hist host,
   regs_first hist = true -> no_del hist = true -> hosts_tokens hist = true -> hosts_canonb hist = true ->
   let host' := normalise_host host in
-  match hosts_match (hosts_reach hist) host [] with
+  match hosts_match_raw (hosts_reach hist) host [] with
   | Some (true, ps) => ~ special host' /\
       exists d, In d (hosts_domains hist) /\ In (d, ps) (resolve (hist_ic hist) (hosts_table hist) host')
   | Some (false, ps) => ps = [] /\ (special host' \/ resolve (hist_ic hist) (hosts_table hist) host' = [])
@@ -595,7 +595,7 @@ Theorem hosts_refines_resolver_any_order : forall hist host table,
   regs_first hist = true -> no_del hist = true -> hosts_tokens hist = true -> hosts_canonb hist = true ->
   Permutation table (hosts_table hist) ->
   let host' := normalise_host host in
-  match hosts_match (hosts_reach hist) host [] with
+  match hosts_match_raw (hosts_reach hist) host [] with
   | Some (true, ps) => ~ special host' /\
       exists d, In d (hosts_domains hist) /\ In (d, ps) (resolve (hist_ic hist) table host')
   | Some (false, ps) => ps = [] /\ (special host' \/ resolve (hist_ic hist) table host' = [])
@@ -604,7 +604,7 @@ Theorem hosts_refines_resolver_any_order : forall hist host table,
 Proof.
   intros hist host table Hr Hd Ht Hc Hp host'.
   pose proof (hosts_refines_resolver hist host Hr Hd Ht Hc) as R. cbv zeta in R. fold host' in R.
-  destruct (hosts_match (hosts_reach hist) host []) as [[[|] ps]|]; [| |exact R].
+  destruct (hosts_match_raw (hosts_reach hist) host []) as [[[|] ps]|]; [| |exact R].
   - destruct R as [Nsp [d [Id Ir]]]. split; [exact Nsp|]. exists d. split; [exact Id|].
     apply (resolve_perm (hist_ic hist) table (hosts_table hist) host' Hp). exact Ir.
   - destruct R as [E [Sp|Rn]]; (split; [exact E|]); [now left | right].
@@ -637,12 +637,12 @@ Theorem hosts_delete_frame : forall hist d host,
   let t := hosts_reach hist in
   let t' := hosts_reach (hist ++ [HDel d]) in
   (forall dom ps, hosts_answer t host = Some (dom, ps) -> dom <> to_lower d ->
-     hosts_answer t' host = Some (dom, ps) /\ hosts_match t' host [] = Some (true, ps)) /\
-  (forall ps, hosts_match t host [] = Some (false, ps) -> hosts_match t' host [] = Some (false, ps)).
+     hosts_answer t' host = Some (dom, ps) /\ hosts_match_raw t' host [] = Some (true, ps)) /\
+  (forall ps, hosts_match_raw t host [] = Some (false, ps) -> hosts_match_raw t' host [] = Some (false, ps)).
 Proof.
   intros hist d host Hr Ht t t'.
   assert (Hm : forall dom ps, hosts_answer t' host = Some (dom, ps) ->
-             hosts_answer t' host = Some (dom, ps) /\ hosts_match t' host [] = Some (true, ps)).
+             hosts_answer t' host = Some (dom, ps) /\ hosts_match_raw t' host [] = Some (true, ps)).
   { intros dom ps A. split; [exact A|]. apply hosts_match_answer. now exists dom. }
   pose proof (hosts_match_cases hist host) as C. cbv zeta in C. fold t in C.
   unfold t'. rewrite hosts_reach_del. fold t.
@@ -668,7 +668,7 @@ Proof.
     + intros dom ps0 A'. rewrite A in A'. discriminate A'.
     + intros ps0 M'. rewrite M in M'. injection M' as <-.
       pose proof (C03_remove_frame_404_l _ _ _ _ _ _ _ _ _ _ _ Ht E R) as E'.
-      unfold hosts_match. now rewrite E'.
+      unfold hosts_match_raw. now rewrite E'.
 Qed.
 
 (* GONE: after Delete no host is answered by the deleted domain (in any spelling) *)
@@ -799,7 +799,7 @@ Qed.
 (* the parameters reported are looked up by name: the last chain element with that name *)
 Corollary hosts_sound_match : forall hist host ps,
   regs_first hist = true -> hosts_tokens hist = true ->
-  hosts_match (hosts_reach hist) host [] = Some (true, ps) ->
+  hosts_match_raw (hosts_reach hist) host [] = Some (true, ps) ->
   exists dom, In dom (hosts_domains hist) /\
   exists chain n, chain_to (troot (hosts_reach hist)) chain n /\ npat n = dom /\
     dom = concat (map (fun cv => sval (nseg (fst cv))) chain) /\
@@ -855,7 +855,7 @@ Theorem hosts_live_served : forall hist chain n host,
   let t := hosts_reach hist in
   chain_to (troot t) chain n -> In (npat n) (hosts_domains hist) -> simple t chain ->
   normalise_host host = wpath chain -> wpath chain <> bs "*" ->
-  exists dom ps, hosts_answer t host = Some (dom, ps) /\ hosts_match t host [] = Some (true, ps) /\
+  exists dom ps, hosts_answer t host = Some (dom, ps) /\ hosts_match_raw t host [] = Some (true, ps) /\
                  In dom (hosts_domains hist).
 Proof.
   intros hist chain n host Hr Ht t C I Hs Eh Nstar.
@@ -883,7 +883,7 @@ Theorem hosts_live_served_exact : forall hist chain n host,
   chain_to (troot t) chain n -> In (npat n) (hosts_domains hist) -> simple t chain -> first_at (troot t) chain ->
   normalise_host host = wpath chain -> wpath chain <> bs "*" ->
   hosts_answer t host = Some (npat n, wparams chain []) /\
-  hosts_match t host [] = Some (true, wparams chain []).
+  hosts_match_raw t host [] = Some (true, wparams chain []).
 Proof.
   intros hist chain n host Hr Ht t C I Hs Hf Eh Nstar.
   pose proof (live_node_handlers hist n Hr Ht (chain_to_desc _ _ _ C) I) as Hne.
@@ -909,7 +909,7 @@ Theorem hosts_literal_served : forall hist d n host,
   let t := hosts_reach hist in
   desc (troot t) n -> npat n = d -> In d (hosts_domains hist) -> no_brace d -> d <> bs "*" ->
   no_empty_param n -> normalise_host host = d ->
-  hosts_answer t host = Some (d, []) /\ hosts_match t host [] = Some (true, []).
+  hosts_answer t host = Some (d, []) /\ hosts_match_raw t host [] = Some (true, []).
 Proof.
   intros hist d n host Hr Ht t D Ep I Hnb Nstar Hnep Eh.
   pose proof (hosts_domain_nonempty hist d Hr I) as Nnil.
@@ -997,7 +997,7 @@ Proof. vm_compute. reflexivity. Qed.
 Definition exr_agree (hist : list hop) (host : bytes) : bool :=
   let host' := normalise_host host in
   let outs := resolve (hist_ic hist) (hosts_table hist) host' in
-  match hosts_match (hosts_reach hist) host [] with
+  match hosts_match_raw (hosts_reach hist) host [] with
   | Some (true, ps) => existsb (fun o => mem (fst o) (hosts_domains hist) && ps_eqb (snd o) ps) outs
   | Some (false, ps) => match ps with [] => true | _ => false end &&
                         (beqb host' [] || beqb host' (bs "*") || match outs with [] => true | _ => false end)
@@ -1011,14 +1011,14 @@ Proof. vm_compute. reflexivity. Qed.
 Example exr_either_may_win :
   map fst (resolve (hist_ic exr_adds) (hosts_table exr_adds) (bs "acme.eu.cloud.example.com")) =
     [bs "{sub}.example.com"; bs "{tenant}.{region:word}.cloud.example.com"] /\
-  hosts_match (hosts_reach exr_adds) (bs "Acme.EU.cloud.example.com:8443") [] =
+  hosts_match_raw (hosts_reach exr_adds) (bs "Acme.EU.cloud.example.com:8443") [] =
     Some (true, [(bs "sub", bs "acme.eu.cloud")]).
 Proof. vm_compute. split; reflexivity. Qed.
 
 (* the theorems applied *)
 Example exr_refines : forall host,
   let host' := normalise_host host in
-  match hosts_match (hosts_reach exr_adds) host [] with
+  match hosts_match_raw (hosts_reach exr_adds) host [] with
   | Some (true, ps) => ~ special host' /\
       exists d, In d (hosts_domains exr_adds) /\ In (d, ps) (resolve (hist_ic exr_adds) (hosts_table exr_adds) host')
   | Some (false, ps) => ps = [] /\ (special host' \/ resolve (hist_ic exr_adds) (hosts_table exr_adds) host' = [])
@@ -1030,7 +1030,7 @@ Qed.
 
 Example exr_frame : forall host dom ps,
   hosts_answer (hosts_reach exr_adds) host = Some (dom, ps) -> dom <> bs "www.example.com" ->
-  hosts_match (hosts_reach exr_hist) host [] = Some (true, ps).
+  hosts_match_raw (hosts_reach exr_hist) host [] = Some (true, ps).
 Proof.
   intros host dom ps A Nd. destruct exr_premises as [R [_ [T _]]].
   destruct (hosts_delete_frame exr_adds (bs "WWW.Example.COM") host R T) as [F _].
@@ -1044,7 +1044,7 @@ Proof.
   exact (hosts_deleted_gone exr_adds (bs "WWW.Example.COM") host dom ps R T A).
 Qed.
 
-Example exr_sound : forall host ps, hosts_match (hosts_reach exr_hist) host [] = Some (true, ps) ->
+Example exr_sound : forall host ps, hosts_match_raw (hosts_reach exr_hist) host [] = Some (true, ps) ->
   exists dom, In dom (hosts_domains exr_hist) /\
   exists chain n, chain_to (troot (hosts_reach exr_hist)) chain n /\ npat n = dom /\
     dom = concat (map (fun cv => sval (nseg (fst cv))) chain) /\
@@ -1105,10 +1105,10 @@ Proof.
 Qed.
 
 Example exr_served :
-  hosts_match (hosts_reach exr_hist) (bs "ZZ.Example.com:8080") [] = Some (true, [(bs "sub", bs "zz")]) /\
+  hosts_match_raw (hosts_reach exr_hist) (bs "ZZ.Example.com:8080") [] = Some (true, [(bs "sub", bs "zz")]) /\
   (exists dom ps, hosts_answer (hosts_reach exr_hist) (bs "qq.zz.cloud.example.com") = Some (dom, ps) /\
                   In dom (hosts_domains exr_hist)) /\
-  hosts_match (hosts_reach exr_hist) (bs "API.example.com") [] = Some (true, []).
+  hosts_match_raw (hosts_reach exr_hist) (bs "API.example.com") [] = Some (true, []).
 Proof.
   destruct exr_premises as [_ [_ [_ [_ [R [T _]]]]]].
   destruct exr_chain_premises as [C1 [I1 [S1 [F1 [C2 [I2 [S2 [D3 [I3 [B3 E3]]]]]]]]]].
@@ -1130,12 +1130,12 @@ Qed.
 Corollary hosts_accepts_iff_resolves : forall hist host,
   regs_first hist = true -> no_del hist = true -> hosts_tokens hist = true -> hosts_canonb hist = true ->
   ~ special (normalise_host host) ->
-  ((exists ps, hosts_match (hosts_reach hist) host [] = Some (true, ps)) <->
+  ((exists ps, hosts_match_raw (hosts_reach hist) host [] = Some (true, ps)) <->
    resolve (hist_ic hist) (hosts_table hist) (normalise_host host) <> []).
 Proof.
   intros hist host Hr Hd Ht Hc Nsp.
   pose proof (hosts_refines_resolver hist host Hr Hd Ht Hc) as R. cbv zeta in R.
-  destruct (hosts_match (hosts_reach hist) host []) as [[[|] ps]|]; [| |destruct R].
+  destruct (hosts_match_raw (hosts_reach hist) host []) as [[[|] ps]|]; [| |destruct R].
   - destruct R as [_ [d [_ I]]]. split; [|intros _; now exists ps].
     intros _ E. rewrite E in I. destruct I.
   - destruct R as [_ [Sp|E]]; [now elim Nsp|]. split; [intros [q Hq]; discriminate Hq|].
@@ -1151,8 +1151,8 @@ Example cx_special_facts :
   regs_first cx_special_hist = true /\ no_del cx_special_hist = true /\
   hosts_tokens cx_special_hist = true /\ hosts_canonb cx_special_hist = true /\
   hosts_domains cx_special_hist = [bs "*"; bs "{any}"] /\
-  hosts_match (hosts_reach cx_special_hist) (bs "*") [] = Some (false, []) /\
-  hosts_match (hosts_reach cx_special_hist) [] [] = Some (false, []) /\
+  hosts_match_raw (hosts_reach cx_special_hist) (bs "*") [] = Some (false, []) /\
+  hosts_match_raw (hosts_reach cx_special_hist) [] [] = Some (false, []) /\
   resolve (hist_ic cx_special_hist) (hosts_table cx_special_hist) (normalise_host (bs "*")) = [(bs "*", [])] /\
   resolve (hist_ic cx_special_hist) (hosts_table cx_special_hist) (normalise_host []) = [(bs "{any}", [(bs "any", [])])].
 Proof. vm_compute. repeat split; reflexivity. Qed.
@@ -1160,7 +1160,7 @@ Proof. vm_compute. repeat split; reflexivity. Qed.
 Theorem hosts_resolver_unrestricted_refuted :
   ~ (forall hist host ps,
        regs_first hist = true -> no_del hist = true -> hosts_tokens hist = true -> hosts_canonb hist = true ->
-       hosts_match (hosts_reach hist) host [] = Some (false, ps) ->
+       hosts_match_raw (hosts_reach hist) host [] = Some (false, ps) ->
        resolve (hist_ic hist) (hosts_table hist) (normalise_host host) = []).
 Proof.
   intro H. destruct cx_special_facts as [A [B [C [D [_ [M [_ [R _]]]]]]]].
